@@ -27,8 +27,11 @@ SUITE=$(sed -n 1p $OUT/.verify); DEMO_WITH=$(sed -n 2p $OUT/.verify); DEMO_WITHO
 unset CARGO_TARGET_DIR
 cd /verif
 git -C /repo apply $OUT/patch.diff || { echo "patch does not apply to /repo"; exit 3; }
+# the evidence file must keep describing the unchanged tree: save it around the run against the seeded change
+cp evidence/$PROP.json /tmp/.evidence-$PROP.json 2>/dev/null
 timeout 1500 ./check $PROP > $OUT/check_with_patch.log 2>&1; RC=$?
 git -C /repo checkout -- .
+[ -f /tmp/.evidence-$PROP.json ] && mv /tmp/.evidence-$PROP.json evidence/$PROP.json
 echo "check $PROP with patch: exit=$RC"; grep -E "^VIOLATION|^INCONCLUSIVE|^KNOWN" $OUT/check_with_patch.log | head -5
 python3 - <<PY
 import json
